@@ -87,12 +87,13 @@ TypeDB.alias = _alias
 
 
 class SymBuilder:
-    def __init__(self, typedb, interp, abstract=None):
+    def __init__(self, typedb, interp, abstract=None, vec_lengths=None):
         self.db = typedb
         self.I = interp
         self.constraints = []
         self.vars = {}
         self.abstract = abstract or {}  # regex on normalised type -> sort name
+        self.vec_lengths = vec_lengths or []  # [(regex on the value's path prefix, length)]: enumerated shapes
 
     def make(self, ty, prefix):
         ty = ty.strip()
@@ -118,6 +119,15 @@ class SymBuilder:
             self.constraints.append(z3.Or(d == 0, d == 1))
             self.vars[prefix + ".is_some"] = d
             return EnumV("Option", d, {1: (self.make(m.group(1), prefix + ".some"),)})
+        if nt in ("f64", "f32"):
+            v = z3.FP(prefix, z3.Float64() if nt == "f64" else z3.Float32())
+            self.vars[prefix] = v
+            return v
+        m = re.match(r"^Vec<(.*)>$", nt)
+        if m:
+            for rx, n in self.vec_lengths:
+                if re.fullmatch(rx, prefix):
+                    return Agg("vec", None, [self.make(m.group(1), "%s[%d]" % (prefix, i)) for i in range(n)])
         if nt in ("String", "&str", "str") or nt.startswith(("BTreeSet<", "BTreeMap<", "Vec<", "HashMap<", "HashSet<")):
             return Opaque(nt, prefix)
         base = nt.split("<")[0]
